@@ -2,6 +2,8 @@ package lib
 
 import (
 	"fmt"
+	"reflect"
+	"strings"
 	"sync"
 	"sync/atomic"
 )
@@ -236,4 +238,40 @@ func ColdGlobals() bool {
 	n := 0
 	syncRegistry.Range(func(k, v any) bool { n++; return true })
 	return n == 0 && lastBuf.Load() == nil
+}
+
+// ---- map iteration order is the simulator's choice --------------------------------
+
+type bag map[string]int
+
+// MapOrder returns the keys of a map in iteration order (range statement on a
+// named map type, key-only range, and reflect's MapKeys), plus the sum.
+func MapOrder() (string, string, int) {
+	m := bag{"a": 1, "b": 2, "c": 3, "d": 4, "e": 5}
+	order := ""
+	sum := 0
+	for k, v := range m {
+		order += k
+		sum += v
+		if v == 1 {
+			delete(m, "e") // legal: "e" is not produced if not yet reached
+			sum += 5 * boolToInt(!strings.Contains(order, "e"))
+		}
+	}
+	n := 0
+	for range m {
+		n++
+	}
+	refl := ""
+	for _, k := range reflect.ValueOf(map[int]bool{1: true, 2: true, 3: true}).MapKeys() {
+		refl += fmt.Sprint(k.Int())
+	}
+	return order, refl, sum*10 + n
+}
+
+func boolToInt(b bool) int {
+	if b {
+		return 1
+	}
+	return 0
 }
